@@ -119,4 +119,92 @@ theorem gen_memory_get_all (cfg : Cfg) (d : St) (self : V) (l o : Int) :
         have hsum : 0 ≤ l + o := by omega
         simp [hz', addM, sliceM, pairM, ho, hsum, polsV', pySlice, List.map_drop, List.map_take]
 
+/-! ### `Storage.retrieve_all` (the generator every storage inherits) -/
+
+/-- the body of the inner loop: `yield policy` -/
+def yieldBody : V → List V → (List V → M) → (List V → M) → M := fun l2_policy s2 k2 b2 =>
+      (bindM (appendM (pure (stGet s2 0)) (pure l2_policy)) fun v___y =>
+      (k2 [v___y]))
+
+theorem yield_loop (xs : List V) : ∀ (acc : List V) (rest : List V → M),
+    loopS xs yieldBody [.seq acc] rest = rest [.seq (acc ++ xs)] := by
+  induction xs with
+  | nil => intro acc rest; simp [loopS]
+  | cons x tail ih =>
+    intro acc rest
+    simp only [loopS, yieldBody, stGet, List.getD_cons_zero, pure_ok, appendM, bindM_ok, ih, List.append_assoc,
+      List.singleton_append]
+
+/-- one round of `while True` -/
+def retrBody (self : V) (v_limit : V) : List V → (List V → M) → (List V → M) → M := fun s1 k1 b1 =>
+      (bindM (callList (pagerGetAllM (pure self) (pure v_limit) (pure (stGet s1 1)))) fun v_policies =>
+      (iteM (cmpEq (callLen (pure v_policies)) (cInt (0)))
+      (pure (stGet s1 0))
+      (pyForS (pure v_policies) yieldBody
+      [(stGet s1 0)]
+      (fun r2 => (bindM (addM (pure (stGet s1 1)) (pure v_limit)) fun v_offset =>
+      (k1 [(stGet r2 0), v_offset]))))))
+
+theorem len_eq_zero (n : Nat) : cmpEq (cInt (n : Int)) (cInt 0) = ofBool (n == 0) := by
+  have := eq_int (n : Int) 0
+  simp only [cInt] at this ⊢
+  rw [this]
+  cases n with
+  | zero => simp
+  | succ k =>
+    have : ¬ ((k : Int) + 1 = 0) := by omega
+    simp [this]
+
+theorem retrBody_step (ga : Int → Int → Option St) (batch off : Int) (acc : List V) (k b : List V → M) :
+    retrBody (.pager ga) (.py (.int batch)) [.seq acc, .py (.int off)] k b =
+      (match ga batch off with
+       | Option.none => raiseM
+       | some pg => if pg.isEmpty then .ok (.seq acc) else k [.seq (acc ++ polsV' pg), .py (.int (off + batch))]) := by
+  simp only [retrBody, stGet, List.getD_cons_zero, List.getD_cons_succ, pure_ok, pagerGetAllM, bindM_ok]
+  cases hga : ga batch off with
+  | none => simp [callList, raiseM, bindM]
+  | some pg =>
+    simp only [callList, bindM_ok, callLen, len_eq_zero, ofBool_eq, iteM_ok, truth_bool]
+    cases pg with
+    | nil => simp
+    | cons x rest =>
+      simp only [List.length_cons, Nat.add_one_ne_zero, beq_iff_eq, Bool.false_eq_true, if_false,
+        List.isEmpty_cons, pyForS, bindM_ok, items, yield_loop, List.getD_cons_zero, addM, stGet, polsV']
+
+theorem retr_loop (ga : Int → Int → Option St) (batch : Int) : ∀ (fuel : Nat) (off : Int) (acc : List V),
+    whileS fuel (retrBody (.pager ga) (.py (.int batch))) [.seq acc, .py (.int off)] (fun r1 => pure (stGet r1 0)) =
+      (match retrLoop ga batch fuel off with
+       | Option.none => raiseM
+       | some l => .ok (.seq (acc ++ polsV' l))) := by
+  intro fuel
+  induction fuel with
+  | zero => intro off acc; simp [whileS, retrLoop, stGet, polsV']
+  | succ f ih =>
+    intro off acc
+    simp only [whileS, retrLoop, retrBody_step]
+    cases hga : ga batch off with
+    | none => rfl
+    | some pg =>
+      cases pg with
+      | nil => simp [polsV']
+      | cons x rest =>
+        simp only [List.isEmpty_cons, Bool.false_eq_true, if_false, ih]
+        cases retrLoop ga batch f (off + batch) with
+        | none => rfl
+        | some l => simp [polsV', List.append_assoc]
+
+/-- **`Storage.retrieve_all` as written in the source is the model's `retrLoop`** over whatever `get_all` the storage has: what the
+generator yields, in order, is the concatenation of the pages of size `batch` from offset 0 up to the first empty page; it raises
+exactly when a `get_all` call does.  (`retrieveAll_fuel_enough` in `Proofs/Backends.lean`: for a positive batch the bound on the rounds
+is never reached, and the result is every stored policy exactly once.) -/
+theorem gen_retrieve_all (ga : Int → Int → Option St) (batch : Int) (fuel : Nat) :
+    retrieve_all_Storage fuel (.pager ga) (.py (.int batch)) =
+      (match retrLoop ga batch fuel 0 with
+       | Option.none => raiseM
+       | some l => .ok (.seq (polsV' l))) := by
+  have h := retr_loop ga batch fuel 0 []
+  simp only [List.nil_append] at h
+  simp only [retrieve_all_Storage, cEmptyList, bindM_ok, pure_ok, cInt]
+  exact h
+
 end Vakt.GenEquiv
